@@ -3743,6 +3743,7 @@ func convertConstantValue(n *node) {
 	}
 
 	var v reflect.Value
+	typ := n.typ.TypeOf()
 
 	switch c.Kind() {
 	case constant.Bool:
@@ -3750,21 +3751,51 @@ func convertConstantValue(n *node) {
 	case constant.String:
 		v = reflect.ValueOf(constant.StringVal(c))
 	case constant.Int:
-		i, x := constant.Int64Val(c)
-		if !x {
-			panic(n.cfgErrorf("constant %s overflows int64", c.ExactString()))
+		switch typ.Kind() {
+		case reflect.Uint, reflect.Uint8, reflect.Uint16, reflect.Uint32, reflect.Uint64, reflect.Uintptr:
+			i, x := constant.Uint64Val(c)
+			if !x {
+				panic(n.cfgErrorf("constant %s overflows uint64", c.ExactString()))
+			}
+			v = reflect.ValueOf(i)
+		case reflect.Float32, reflect.Float64, reflect.Complex64, reflect.Complex128:
+			v = constFloatValue(constant.ToFloat(c), typ)
+		default:
+			i, x := constant.Int64Val(c)
+			if !x {
+				panic(n.cfgErrorf("constant %s overflows int64", c.ExactString()))
+			}
+			v = reflect.ValueOf(int(i))
 		}
-		v = reflect.ValueOf(int(i))
-	case constant.Float:
-		f, _ := constant.Float64Val(c)
-		v = reflect.ValueOf(f)
-	case constant.Complex:
-		r, _ := constant.Float64Val(constant.Real(c))
-		i, _ := constant.Float64Val(constant.Imag(c))
-		v = reflect.ValueOf(complex(r, i))
+	case constant.Float, constant.Complex:
+		v = constFloatValue(c, typ)
 	}
 
 	n.rval = v.Convert(n.typ.TypeOf())
+}
+
+// constFloatValue returns the float or complex constant c rounded once to the precision of type t.
+func constFloatValue(c constant.Value, t reflect.Type) reflect.Value {
+	switch t.Kind() {
+	case reflect.Float32:
+		f, _ := constant.Float32Val(constant.Real(c))
+		return reflect.ValueOf(f)
+	case reflect.Complex64:
+		r, _ := constant.Float32Val(constant.Real(c))
+		i, _ := constant.Float32Val(constant.Imag(c))
+		return reflect.ValueOf(complex(r, i))
+	case reflect.Complex128:
+		r, _ := constant.Float64Val(constant.Real(c))
+		i, _ := constant.Float64Val(constant.Imag(c))
+		return reflect.ValueOf(complex(r, i))
+	}
+	if c.Kind() == constant.Complex {
+		r, _ := constant.Float64Val(constant.Real(c))
+		i, _ := constant.Float64Val(constant.Imag(c))
+		return reflect.ValueOf(complex(r, i))
+	}
+	f, _ := constant.Float64Val(c)
+	return reflect.ValueOf(f)
 }
 
 // Write to a channel.
